@@ -8,6 +8,8 @@ mod build;
 mod ck;
 mod dec;
 mod enc;
+mod enc_link;
+mod enc_net;
 mod ext;
 mod frag;
 mod io;
